@@ -272,6 +272,10 @@ func runCase(rep *vh.Report, env vh.Env, stacks []*stackKind, i int) {
 		for name, w := range want {
 			g := got(name)
 			switch {
+			case len(g) == 0 && w == "":
+				// nothing to assert (e.g. a session without groups): an absent header says the same as an
+				// empty one; what matters is that no client-chosen value is there
+				rep.Count("empty_session_value_header_absent", 1)
 			case len(g) == 0:
 				rep.Violate("c03", i, fmt.Sprintf("authenticated: %s missing-at-upstream conn=%s", name, connClass), fmt.Sprintf("upstream received no %s (client Connection: %q)", name, conn), kc)
 			case len(g) != 1 || g[0] != w:
